@@ -260,6 +260,28 @@ def resolve(doc, ref=None):
         meth_map, field_map = {}, {}
     # --- parameter lists: a private method whose parameters were re-ordered, or whose unused `self` receiver was dropped, gets the
     # reference order back (locals of its body and arguments of every call site are permuted; a dropped receiver becomes a dummy) ---
+    # --- re-homed methods: a private method that the reference has on owner O and that now lives, under the same name, in an impl of
+    # ANOTHER type of the same module (an associated function `f(shared: &Shared, ..)` turned into a method `Shared::f(&self, ..)`), where
+    # the reference knows no such method, is looked up under its reference owner again (its path, and so its call sites, do not change) ---
+    cur = profile(doc)
+    for owner, rms in ref['methods'].items():
+        cms = cur['methods'].get(owner, {})
+        mod = owner.rsplit('::', 1)[0]
+        for name in rms:
+            if name in cms:
+                continue
+            cands = [(o2, ms2[name]) for o2, ms2 in cur['methods'].items()
+                     if o2 != owner and o2.rsplit('::', 1)[0] == mod and name in ms2 and name not in ref['methods'].get(o2, {})]
+            if len(cands) != 1:
+                continue
+            (o2, cm) = cands[0]
+            b = doc['bodies'][cm['path']]
+            if b.get('vis') == 'pub' or b.get('impl_trait') or _sim(rms[name]['tokens'], cm['tokens']) < 0.5:
+                continue
+            for k2, b2 in doc['bodies'].items():
+                if k2 == cm['path'] or b2.get('root') == cm['path'] or k2.startswith(cm['path'] + '::'):
+                    b2['impl_self_adt'] = owner
+            notes.append({'kind': 'method moved', 'owner': owner, 'reference': name, 'current': o2.split('::')[-1] + '::' + name, 'similarity': round(_sim(rms[name]['tokens'], cm['tokens']), 2)})
     # --- parameter objects: a private method that now receives a small crate-local struct (unknown to the reference) where the reference
     # passes the values one by one gets the struct parameter replaced by the fields it reads (scalar replacement; every call site passes
     # the matching fields of the struct it handed over) ---
@@ -274,7 +296,7 @@ def resolve(doc, ref=None):
                 ct = c['params'][i][1]
                 base = ct[1:].strip() if ct.startswith('&') else ct
                 base = base.split('<')[0]
-                if ct in ref_tys or base not in doc['adts'] or base in ref.get('adts', {}) or doc['adts'][base].get('kind') != 'struct':
+                if ct in ref_tys or base not in doc['adts'] or doc['adts'][base].get('kind') != 'struct' or len(c['params']) > len(r['params']):
                     continue
                 if _explode_param(doc, c['path'], i, base, ct.startswith('&')):
                     notes.append({'kind': 'parameter object', 'owner': owner, 'reference': name + '(' + ', '.join(str(p_[0]) for p_ in r['params']) + ')',
